@@ -15,7 +15,8 @@ FAMILY = "store"
 HARNESS = {"source": "x_store.c", "leak_clean": True, "extra_sources": ["x_store_body.h", "cifio.h"]}
 RULE = ("random API histories (quick: <= 40 ops, thorough: <= 120 ops) over <= 3 CIFs, <= 4 blocks, frame nesting <= 3, "
         "names from a small pool with case/normalisation variants and invalid forms, live and stale handles, ~50% of the "
-        "ops constructed to fail (each failure kind x each offending position), some inside an open iterator; "
+        "ops constructed to fail (each failure kind x each offending position), some inside an open iterator; plus every combination of "
+        "{nested-savepoint call inside an open iterator} x {1..3 successful updates} x {failing iterator call} x {close, abort}; "
         "non-trivial = at least one failing op and one successful modification; oracle = C05 (failed op: every dump and "
         "autocommit flag unchanged) + C04 invariants and op-specific post-conditions on the dumps")
 
@@ -113,12 +114,14 @@ class History:
         self.toks += [str(x) for x in t]
         self.nops += 1
 
+    avoid = None    # a CIF slot the generator stays away from (g_session: the CIF an iterator is open on)
+
     def live_cifs(self):
-        return [i for i, c in enumerate(self.cifs) if c is not None]
+        return [i for i, c in enumerate(self.cifs) if c is not None and i != self.avoid]
 
     def live_chs(self, want_alive=True):
         return [i for i, c in enumerate(self.chs) if c is not None and self.cifs[c.cif] is not None and c.alive == want_alive
-                and not getattr(c, "hdead", False)]
+                and not getattr(c, "hdead", False) and c.cif != self.avoid]
 
     def live_lhs(self, want_alive=True):
         out = []
@@ -126,7 +129,7 @@ class History:
             if e is None:
                 continue
             l, ch = e
-            if self.chs[ch] is None or self.cifs[l.cont.cif] is None:
+            if self.chs[ch] is None or self.cifs[l.cont.cif] is None or l.cont.cif == self.avoid:
                 continue
             if l.alive == want_alive:
                 out.append(i)
@@ -496,8 +499,142 @@ class History:
             else:
                 # any other op (both intended-good and intended-bad) while the transaction is open
                 kinds = self.FAIL_KINDS if r.random() < 0.6 else self.GOOD_KINDS
-                kk = r.choice([x for x in kinds if x not in ("g_iter", "g_delcif", "f_iter_misuse", "g_cross")])
+                kk = r.choice([x for x in kinds if x not in ("g_iter", "g_delcif", "f_iter_misuse", "g_cross", "g_session", "g_iter_sp")])
                 getattr(self, kk)()
+        self.op("itclose" if r.random() < 0.6 else "itabort", it)
+        self.its[it] = None
+        del self.open_it[l.cont.cif]
+        return True
+
+    def g_session(self):
+        """an iterator session embedded in the history and IN CONTRACT (Model/StoreContract): while the iterator is open only its own
+        calls (and a refused second get_packets) work on its CIF; the calls in between go to OTHER CIFs (one is created when there is
+        none); ops came before, and the history goes on afterwards — this is what C04_refines_hist / C06_delivers_in_history speak about"""
+        r = self.r
+        if self.open_it or self.avoid is not None:
+            return False
+        ls = [l for l in self.live_lhs() if self.lhs[l][0].npk > 0]
+        if not ls or r.random() < 0.4:
+            return False
+        li = r.choice(ls)
+        l = self.lhs[li][0]
+        c = l.cont.cif
+        self.op("itopen", li)
+        it = len(self.its)
+        self.its.append({"loop": l, "lh": li})
+        self.open_it[c] = it
+        self.avoid = c
+        try:
+            for step in range(r.randint(3, 10)):
+                k = r.random()
+                if step == 0 or k < 0.3:
+                    self.emit_next(it, l)
+                elif k < 0.42:
+                    keys = list(l.names.keys()); r.shuffle(keys)
+                    keys = keys[:r.randint(1, len(keys))]
+                    toks = []
+                    for kk in keys:
+                        toks += [name_tok(l.names[kk], True)] + self.value()
+                    self.op("itupd", it, len(keys), *toks)
+                elif k < 0.52:
+                    self.op("itrem", it)
+                    l.npk = max(0, l.npk - 1)
+                elif k < 0.57:
+                    self.op("itopen", li); self.its.append(None)          # refused: one iterator at a time per CIF
+                else:
+                    if not self.live_cifs():
+                        self.op("cif+"); self.cifs.append({})
+                    kinds = self.FAIL_KINDS if r.random() < 0.3 else self.GOOD_KINDS
+                    for _ in range(12):
+                        kk = r.choice([x for x in kinds if x not in ("g_iter", "f_iter_misuse", "g_cross", "g_session", "g_iter_sp")])
+                        if getattr(self, kk)():
+                            break
+                    else:
+                        self.g_mkblock()
+        finally:
+            self.avoid = None
+        self.op("itclose" if r.random() < 0.6 else "itabort", it)
+        self.its[it] = None
+        del self.open_it[c]
+        return True
+
+    def g_scalar_nopkt(self):
+        """a scalar loop made by cif_container_create_loop (category "", no packet), then set_value of a NEW item: the item joins the
+        scalar loop, which gets its one packet (unknown value for the older items)"""
+        hs = [h for h in self.live_chs() if not self.in_tx(self.chs[h].cif) and not any(l.cat == "" for l in self.chs[h].loops)]
+        if not hs or self.r.random() < 0.5:
+            return False
+        h = self.r.choice(hs)
+        c = self.chs[h]
+        names = self.fresh_items(c, self.r.randint(2, 3))
+        if len(names) < 2:
+            return False
+        self.op("mkloop", h, cat_tok(""), len(names) - 1, *[name_tok(n, True) for n in names[:-1]])
+        l = SLoop(c, "", names[:-1])
+        c.loops.append(l)
+        self.lhs.append((l, h))
+        self.op("setval", h, name_tok(names[-1], True), *self.value())
+        l.names[norm(names[-1])] = names[-1]
+        l.npk = 1
+        return True
+
+    def g_iter_sp(self):
+        """inside ONE open iterator: next; a call on the SAME CIF that works through a nested savepoint and only reads or fails softly
+        (get_names, get_all_loops, get_value, add_packet with a foreign item, create_loop / add_item with a duplicate name — each
+        leaves a `savepoint s` on SQLite's stack: `rollback to s` keeps it); 1..3 SUCCESSFUL updates; a FAILING iterator call
+        (foreign item at the first / middle / last position: CIF_WRONG_LOOP; update / remove without current packet: CIF_MISUSE);
+        next, update, close or abort.  The failed call must not undo the successful updates (C05; seeded change C05_sp)."""
+        r = self.r
+        ls = [l for l in self.live_lhs() if self.lhs[l][0].npk > 0 and not self.in_tx(self.lhs[l][0].cont.cif)
+              and self.lhs[l][0].names]
+        if not ls or r.random() < 0.3:
+            return False
+        li = r.choice(ls)
+        l, h = self.lhs[li]
+        names = list(l.names.values())
+        self.op("itopen", li)
+        it = len(self.its)
+        self.its.append({"loop": l, "lh": li})
+        self.open_it[l.cont.cif] = it
+        self.op("itnext", it)
+        kind = r.choice(["names", "loops", "getval", "addpkt-fail", "mkloop-fail", "additem-fail"])
+        if kind == "names":
+            self.op("names", li)
+        elif kind == "loops":
+            self.op("loops", h)
+        elif kind == "getval":
+            self.op("getval", h, name_tok(r.choice(names), True))
+        elif kind == "addpkt-fail":
+            self.op("addpkt", li, 2, name_tok(names[0], True), *(self.value() + [name_tok("_zz9", True)] + self.value()))
+        elif kind == "mkloop-fail":
+            self.op("mkloop", h, cat_tok("c9"), 2, name_tok("_new9", True), name_tok(names[0], True))
+            self.lhs.append(None)
+        else:
+            self.op("additem", li, name_tok(names[-1], True), *self.value())
+
+        def upd(use):
+            toks = []
+            for nme in use:
+                toks += [name_tok(nme, True)] + self.value()
+            self.op("itupd", it, len(use), *toks)
+        for g in range(r.randint(1, 3)):
+            upd(names[: 1 + (g % len(names))])
+        fk = r.choice(["wrong-first", "wrong-middle", "wrong-last", "misuse-update", "misuse-remove"])
+        if fk.startswith("wrong"):
+            toks = []
+            for nme in names:
+                toks += [name_tok(nme, True)] + self.value()
+            pos = {"wrong-first": 0, "wrong-middle": (len(names) + 1) // 2, "wrong-last": len(names)}[fk]
+            toks = self.splice_pair(toks, pos, [name_tok("_zz9", True)] + self.value())
+            self.op("itupd", it, len(names) + 1, *toks)
+        elif fk == "misuse-update":
+            self.op("itrem", it); l.npk = max(0, l.npk - 1)
+            upd(names[:1])
+        else:
+            self.op("itrem", it); l.npk = max(0, l.npk - 1)
+            self.op("itrem", it)
+        self.op("itnext", it)
+        upd(names)
         self.op("itclose" if r.random() < 0.6 else "itabort", it)
         self.its[it] = None
         del self.open_it[l.cont.cif]
@@ -890,14 +1027,34 @@ class History:
 
     GOOD_KINDS = (["g_mkblock"] * 3 + ["g_getblock"] * 2 + ["g_mkframe"] * 3 + ["g_getframe"] * 2 + ["g_mkloop"] * 6 + ["g_setval_new"] * 4
                   + ["g_setval_old"] * 3 + ["g_addpkt"] * 8 + ["g_additem"] * 2 + ["g_rmitem"] * 3 + ["g_query"] * 6 + ["g_setcat"]
-                  + ["g_prune", "g_ldestroy", "g_cdestroy", "g_cdestroy", "g_newcif", "g_delcif"] + ["g_iter"] * 3 + ["g_cross"] * 4)
+                  + ["g_prune", "g_ldestroy", "g_cdestroy", "g_cdestroy", "g_newcif", "g_delcif"] + ["g_iter"] * 3 + ["g_cross"] * 4 + ["g_session"] * 6 + ["g_scalar_nopkt"] + ["g_iter_sp"] * 4)
     FAIL_KINDS = (["f_mkblock"] * 2 + ["f_mkframe"] * 2 + ["f_lookup"] * 2 + ["f_mkloop"] * 6 + ["f_addpkt"] * 6 + ["f_item"] * 5
                   + ["f_setcat"] * 2 + ["f_stale_loop"] * 2 + ["f_iter_misuse"])
+
+
+def savepoint_histories(tier):
+    """EVERY combination of {nested-savepoint call inside an open iterator} x {1..3 successful updates} x {failing iterator call}
+    x {close, abort} (tools/gen/iter.py `savepoint_sessions`), as histories of this family: C05's oracle (a failed call changes
+    nothing the dumps show, inside the iterator's transaction too) sees each of them; quick: one loop shape per combination, in
+    rotation; thorough: three shapes each"""
+    import importlib
+    I = importlib.import_module("iter")
+    shapes = [("l2x3", 2, 3, False, False), ("s2", 2, 1, True, False), ("l3x1", 3, 1, False, False)]
+    gens = []
+    for shp in shapes:
+        pre, names = I.setup(*shp)
+        gens.append(list(I.savepoint_sessions(pre, names)))
+    for k in range(len(gens[0])):
+        for j, g in enumerate(gens):
+            if tier != "quick" or j == k % len(gens):
+                yield "store " + g[k].split(" ", 1)[1]
 
 
 def generate(seed, tier):
     r = rng(seed, FAMILY)
     n, maxlen = (1500, 40) if tier == "quick" else (12000, 120)
+    for req in savepoint_histories(tier):
+        yield req
     for _ in range(n):
         yield "store " + " ".join(History(r, maxlen).toks)
 
@@ -1484,8 +1641,13 @@ def classify(req, impl):
     n = len(steps)
     fails = sum(1 for s in steps if s["rc"] not in (0, None))
     intx = sum(1 for s in steps if "0" in s["ac"])
-    return "ops<=%d fail%%=%d in-tx=%s %s" % ((n + 9) // 10 * 10, (100 * fails // max(1, n)) // 25 * 25, "y" if intx else "n",
-                                             storecontract.label(req))
+    fs = storecontract.features(req)
+    # what the in-contract part exercises (three-way compared with the documented model): set_value on a loop with >= 2 packets (M),
+    # of a new item (N: creating / joining the scalar loop), an iterator session with calls on other CIFs meanwhile and calls after it
+    feat = "sv=" + ("M" if "M" in fs else "") + ("N" if any(x in fs for x in "CJP") else "") + \
+           (" session-embedded" if all(x in fs for x in "OXEA") else "")
+    return "ops<=%d fail%%=%d in-tx=%s %s %s" % ((n + 9) // 10 * 10, (100 * fails // max(1, n)) // 25 * 25, "y" if intx else "n",
+                                                storecontract.label(req), feat)
 
 
 def model_request(req, impl):
